@@ -53,14 +53,19 @@ pub fn strategy() -> BoxedStrategy<Req> {
         3 => u256_interesting().prop_map(|s| Req::new("sig.keygen", vec![s.to_vec()])),
         1 => u256_interesting().prop_map(|s| Req::new("sig.generate", vec![s.to_vec()])),
         // keypair import: matching half / another valid key / sign-flipped key / undecodable or arbitrary half
-        3 => (u256_interesting(), 0u8..5, u256_interesting()).prop_map(|(seed, kind, other)| {
+        // ... / the right key translated by a torsion point (equal after cofactor clearing) / doubled / minus a translate
+        4 => (u256_interesting(), 0u8..9, u256_interesting(), 1usize..8).prop_map(|(seed, kind, other, t)| {
             let mut pk = eddsa::expand(&seed).pk;
+            let a = || crate::model::ed::Aff::decompress(&eddsa::expand(&seed).pk).unwrap();
             match kind {
                 0 => {}
                 1 => pk = eddsa::expand(&other).pk,
                 2 => pk[31] ^= 0x80,
                 3 => pk = other,
-                _ => pk[0] ^= 1,
+                4 => pk[0] ^= 1,
+                5 | 6 => pk = a().add(&torsion()[t]).compress(),
+                7 => pk = a().dbl().compress(),
+                _ => pk = a().neg().add(&torsion()[t]).compress(),
             }
             Req::new("sig.from_keypair", vec![join64(&seed, &pk).to_vec()])
         }),
@@ -98,7 +103,7 @@ pub fn classify(req: &Req, resp: &Resp) -> Vec<&'static str> {
     l
 }
 
-pub const RULE: &str = "key derivation (all constructors, keypair import with matching / foreign / sign-flipped / arbitrary public half), pure signing (Signer, try_sign, hazmat raw_sign), prehashed signing (sign_prehashed, Context::sign_digest, DigestSigner, hazmat raw_sign_prehashed) with SHA-512 and with a pass-through digest for chosen prehashes, contexts of length 0..255 accepted and 256+ refused, expanded keys from arbitrary 64 bytes; messages on SHA-512 block edges; then every produced signature through all eight verification entry points, untampered and with key / message / signature / context replaced; oracle = RFC 8032 on the integer model (byte equality of keys and signatures, Ok/Err of refusals, model verdicts); non-trivial = prehash or context variant, context length 0/255/>255, block-edge message, special seed, keypair import, verification after signing";
+pub const RULE: &str = "key derivation (all constructors, keypair import with matching / foreign / sign-flipped / arbitrary / torsion-translated / doubled public half), pure signing (Signer, try_sign, hazmat raw_sign), prehashed signing (sign_prehashed, Context::sign_digest, DigestSigner, hazmat raw_sign_prehashed) with SHA-512 and with a pass-through digest for chosen prehashes, contexts of length 0..255 accepted and 256+ refused, expanded keys from arbitrary 64 bytes; messages on SHA-512 block edges; then every produced signature through all eight verification entry points, untampered and with key / message / signature / context replaced; oracle = RFC 8032 on the integer model (byte equality of keys and signatures, Ok/Err of refusals, model verdicts); non-trivial = prehash or context variant, context length 0/255/>255, block-edge message, special seed, keypair import, verification after signing";
 
 pub fn checks(tier: Tier) -> Vec<Check> {
     vec![Check {
